@@ -1,5 +1,6 @@
 (* Model of the integer-register optimisation of /repo (property C05), as repaired by the fix
-   commits ce974bc 53bcb24 914e8ba 9eb932a 939db5a 3c1869d (and f881ef4, 8c21b75 of other properties).
+   commits ce974bc 53bcb24 914e8ba 9eb932a 939db5a 3c1869d 2e49243 (and f881ef4, 8c21b75 of other
+   properties).
    Executable Gallina, no proofs here.
 
    Part 1  the body rewrite: eval.ModifyRegister as a callback of ast.Modify (Modify.v), the
@@ -54,7 +55,7 @@ Definition is_incdec (t : tok) : bool :=
      *ast.PrefixExpression ++/-- whose Right is this register (already rewritten: post-order)
                                                -> nil,false   (fix 9eb932a)
      *ast.MapLiteral whose rewritten keys collide (len(Pairs) != len(Order)) -> nil,false
-     *ast.CallExpression whose Function is an identifier of that name          -> nil,false
+     *ast.CallExpression whose (already rewritten) Function is this register   -> nil,false
      *ast.FunctionLiteral                      -> nil,false
      anything else (incl. other registers)     -> unchanged                                    *)
 (* len(in.Pairs) != len(in.Order) on a rewritten map literal: two keys are the same Go pointer,
@@ -72,7 +73,7 @@ Definition modify_register_cb (name : bytes) (n : node) : res node :=
   | NPostfix _ prev => if bytes_eqb (tlit prev) name then RBail else ROk n
   | NPrefix t (Some r) => if is_incdec t && is_reg_of name r then RBail else ROk n
   | NMap _ l => if dup_keys name l then RBail else ROk n                     (* fix 3c1869d *)
-  | NCall _ (Some fn) _ => if is_ident_of name fn then RBail else ROk n      (* fix 939db5a *)
+  | NCall _ (Some fn) _ => if is_reg_of name fn then RBail else ROk n        (* fixes 939db5a, 2e49243 *)
   | NFunc _ _ _ _ _ _ => RBail
   | _ => ROk n
   end.
@@ -100,8 +101,7 @@ Section Occurrences.
       match l with [] => 0 | kv :: tl => fold_opt rec 0 (fst kv) + fold_opt rec 0 (snd kv) + go tl end.
 
   (* register.Count after a rewrite that answered ok: the identifiers of that name at the
-     positions ast.Modify visits (not the Function child of a call, not a literal's Name, not
-     the token of a postfix expression) *)
+     positions ast.Modify visits (not a literal's Name, not the token of a postfix expression) *)
   Fixpoint count_occ (n : node) : nat :=
     match n with
     | NIdent _ => if is_ident_of name n then 1 else 0
@@ -117,7 +117,7 @@ Section Occurrences.
     | NArray _ e => sum_slice count_occ e
     | NMap _ l => sum_pairs count_occ l
     | NBuiltin _ ps => sum_slice count_occ ps
-    | NCall _ _ args => sum_slice count_occ args
+    | NCall _ fn args => fold_opt count_occ 0 fn + sum_slice count_occ args
     | NInt _ _ | NFloat _ _ | NString _ | NBool _ _ | NComment _ _ _ | NControl _ | NPostfix _ _ => 0
     end.
 
@@ -144,7 +144,7 @@ Section Occurrences.
         NMap t (alias_pairs (same_reg name)
                   (map (fun kv => (option_map subst_reg (fst kv), option_map subst_reg (snd kv))) l))
     | NBuiltin t ps => NBuiltin t (subst_slice subst_reg ps)
-    | NCall t fn args => NCall t fn (subst_slice subst_reg args)   (* Function child untouched *)
+    | NCall t fn args => NCall t (option_map subst_reg fn) (subst_slice subst_reg args)
     | NInt _ _ | NFloat _ _ | NString _ | NBool _ _ | NComment _ _ _ | NControl _ | NPostfix _ _ => n
     end.
 
@@ -189,7 +189,8 @@ Section Occurrences.
         || dup_keys name (map (fun kv => (option_map subst_reg (fst kv), option_map subst_reg (snd kv))) l)
     | NBuiltin _ ps => any_slice bails ps
     | NCall _ fn args =>
-        any_slice bails args || match fn with Some c => is_ident_of name c | None => false end
+        fold_opt bails false fn || any_slice bails args
+        || match fn with Some c => is_ident_of name c || is_reg_of name c | None => false end
     | NIdent _ | NInt _ _ | NFloat _ _ | NString _ | NBool _ _ | NComment _ _ _ | NControl _ => false
     end.
 
@@ -223,7 +224,7 @@ Section Occurrences.
     | NArray _ e => all_slice wf_node e
     | NMap _ l => all_pairs wf_node l
     | NBuiltin _ ps => all_slice wf_node ps
-    | NCall _ _ args => all_slice wf_node args
+    | NCall _ fn args => fold_opt wf_node true fn && all_slice wf_node args
     | NIdent _ | NInt _ _ | NFloat _ _ | NString _ | NBool _ _ | NComment _ _ _ | NControl _
     | NPostfix _ _ => true
     end.
